@@ -266,6 +266,9 @@ func (c *FuncCtx) arith(st *State, op token.Token, a, b *Term, typ, rtyp types.T
 			if s.IsConst() {
 				return Mod(s, Const(M))
 			}
+			if c.fits(s, k) {
+				return s
+			}
 			return c.named(st, "add", Ite(Ge(s, Const(M)), Sub(s, Const(M)), s), typ)
 		}
 		return c.wrapTo(st, s, typ, at, "add")
@@ -280,6 +283,9 @@ func (c *FuncCtx) arith(st *State, op token.Token, a, b *Term, typ, rtyp types.T
 		return c.wrapTo(st, s, typ, at, "sub")
 	case token.MUL:
 		p := c.product(st, a, b)
+		if unsigned && (a.IsConst() || b.IsConst()) && c.fits(p, k) {
+			return p
+		}
 		if unsigned {
 			return c.named(st, "mul", Mod(p, Const(M)), typ)
 		}
@@ -332,6 +338,9 @@ func (c *FuncCtx) arith(st *State, op token.Token, a, b *Term, typ, rtyp types.T
 		}
 		p := MulC(pow2(sh), a)
 		if unsigned {
+			if c.fits(p, k) {
+				return p
+			}
 			return c.named(st, "shl", Mod(p, Const(M)), typ)
 		}
 		return c.wrapTo(st, p, typ, at, "shl")
